@@ -102,7 +102,7 @@ func genCase(t *rapid.T) Case {
 	}
 	pk := partKind[c.Kind]
 	for i := 0; i < n; i++ {
-		names := []string{"push", "push", "push", "push", "pushbad", "reverse", "swap", "clone", "touchpart", "repush", "growreturned", "pushview"}
+		names := []string{"push", "push", "push", "push", "pushbad", "reverse", "swap", "clone", "touchpart", "repush", "growreturned", "pushview", "reverseview"}
 		if c.Kind == model.GeometryCollection {
 			names = []string{"push", "push", "push", "pushmulti", "pushbad", "clone"}
 		}
@@ -155,7 +155,7 @@ func genCase(t *rapid.T) Case {
 			if c.Kind != model.GeometryCollection {
 				alive = append(alive, cur)
 			}
-		case "touchpart", "repush", "growreturned":
+		case "touchpart", "repush", "growreturned", "reverseview":
 			op.Bad = rapid.IntRange(0, 1000).Draw(t, "which")
 		case "pushview":
 			op.Bad = rapid.IntRange(0, 1000).Draw(t, "which")
@@ -749,6 +749,21 @@ func prop(c Case) error {
 				return fmt.Errorf("%s: Push of the receiver's own part %d failed: %v", step, k, err)
 			}
 			st.parts = append(st.parts, np)
+		case "reverseview":
+			// a part accessor's result is a view of that part in the receiver's own array:
+			// reversed, it reverses that part there - and nothing else, neither the parts
+			// before it nor the ones after it
+			if len(st.parts) == 0 || c.Kind == model.GeometryCollection || c.Kind == model.MultiPoint {
+				break
+			}
+			k := op.Bad % len(st.parts)
+			if st.parts[k].Empty() {
+				break // (the accessor of a part without coordinates returns a value of its own)
+			}
+			if r, ok := part(recv, k).(interface{ Reverse() }); ok {
+				r.Reverse()
+				reverseParts(c.Kind, st.parts[k:k+1])
+			}
 		case "growreturned":
 			// what a part accessor returned for an EMPTY part belongs to the caller (it has no
 			// storage in common with the receiver): growing it changes no later answer
